@@ -91,18 +91,18 @@ Notation xpa := (xparse E0 q0).
 
 Definition ext0_ok (ll : bool) : Prop :=
   (forall i x e, In i [1; 2; 3; 15] -> dom ll x -> q0 i x = Some e ->
-     canon_value (p0 i e) = true /\ q0 i (rr ll (p0 i e)) = Some e) /\
+     pcanon ll (p0 i e) = true /\ q0 i (rr ll (p0 i e)) = Some e) /\
   (forall x e, q0 2 x = Some e -> ws_item (p0 2 e) = true).
 
 (* the law for one codec *)
 Definition law (ll : bool) (i : N) : Prop :=
   forall x e, xguard i x = true -> dom ll x -> xpa i x = Some e ->
-    canon_value (xpr i e) = true /\ xpa i (rr ll (xpr i e)) = Some e.
+    pcanon ll (xpr i e) = true /\ xpa i (rr ll (xpr i e)) = Some e.
 
 (* a reader that prints back exactly the text it read *)
 Lemma law_canonical ll i : (forall x e, xpa i x = Some e -> xpr i e = x) -> law ll i.
 Proof.
-  intros H x e _ Hx Hp. rewrite (H x e Hp). split; [apply (dom_canon _ _ Hx)|]. rewrite (rr_dom _ _ Hx). exact Hp.
+  intros H x e _ Hx Hp. rewrite (H x e Hp). split; [apply (dom_pcanon _ _ Hx)|]. rewrite (rr_dom _ _ Hx). exact Hp.
 Qed.
 
 (* ---- 1, 2, 3, 15: the premise *)
@@ -186,9 +186,9 @@ Proof.
       + apply N.ltb_lt. apply (of_arm _ _ (origin_ok_facts _ _ Hor) x c' Ea).
       + rewrite origin_dispatch_text. unfold first_piece. rewrite Es, Ea. reflexivity. }
   destruct (porigin_roundtrip _ _ c o Hcat Hor Hvalid) as (text & Ht & Hrt). rewrite Ht.
-  assert (Hcanon : canon_value text = true /\ rr ll text = text).
+  assert (Hcanon : pcanon ll text = true /\ rr ll text = text).
   { destruct (porigin_canon parse_origin_tab x) eqn:Ec.
-    - rewrite (porigin_canonical _ _ x c o Hcat Hor Ec Ep) in Ht. injection Ht as <-. split; [apply (dom_canon _ _ Hx)|apply (rr_dom _ _ Hx)].
+    - rewrite (porigin_canonical _ _ x c o Hcat Hor Ec Ep) in Ht. injection Ht as <-. split; [apply (dom_pcanon _ _ Hx)|apply (rr_dom _ _ Hx)].
     - (* a bare keyword *)
       unfold porigin_canon in Ec. unfold parse_origin in Ep.
       destruct (split_once_str (ot_sep_parse parse_origin_tab) x) as [[a b]|] eqn:Es; [discriminate|].
@@ -198,7 +198,7 @@ Proof.
       injection Ht as <-. pose proof origin_kws_lines as Hk. rewrite forallb_forall in Hk. specialize (Hk _ (assoc_s_some _ _ _ Ea)). cbn [fst] in Hk.
       unfold kw_line in Hk. apply andb_true_iff in Hk. destruct Hk as [Hk1 Hk2].
       assert (Hne : no_eol (x ++ ot_sep_print parse_origin_tab ++ []) = true) by (rewrite !no_eol_app, Hk1; reflexivity).
-      split; [|apply rr_single, no_eol_no_lf, Hne]. apply canon_single; [exact Hne|].
+      split; [|apply rr_single, no_eol_no_lf, Hne]. apply canon_pcanon, canon_single; [exact Hne|].
       destruct x as [|ch x']; [discriminate|]. cbn [app]. apply negb_true_iff. exact Hk2. }
   destruct Hcanon as [C1 C2]. split; [exact C1|]. rewrite C2. cbn [xparse]. rewrite Hrt. reflexivity.
 Qed.
@@ -208,7 +208,7 @@ Lemma split_lf_cons_lf v : split_lf (LF :: v) = [] :: split_lf v.
 Proof. reflexivity. Qed.
 Lemma law_7 : law true 7.
 Proof.
-  intros x e Hg Hx Hp. cbn [xguard] in Hg. cbn [dom] in Hx. pose proof (ll_dom_canon _ Hx) as Hc. pose proof (ll_dom_norm _ Hx) as Hn.
+  intros x e Hg Hx Hp. cbn [pcanon]. cbn [xguard] in Hg. cbn [dom] in Hx. pose proof (ll_dom_canon _ Hx) as Hc. pose proof (ll_dom_norm _ Hx) as Hn.
   cbn [xparse] in Hp. unfold signature_from_str in Hp.
   destruct (strip_prefix [10] x) as [r|] eqn:Es.
   - (* a value of the lossless reader never starts with LF *)
@@ -251,7 +251,7 @@ Lemma ws_item_dom ll w : ws_item w = true -> dom ll w.
 Proof.
   intros Hw. destruct (ws_item_facts _ Hw) as (Hne & Hn & Hi).
   assert (Hc : canon_value w = true) by (apply canon_single; assumption).
-  destruct ll; cbn [dom]; [|exact Hc]. unfold ll_dom. rewrite Hc, (ll_norm_single _ (no_eol_no_lf _ Hn)), LossyRtP.str_eqb_refl. reflexivity.
+  destruct ll; cbn [dom]; [|apply canon_lcanon; exact Hc]. unfold ll_dom. rewrite Hc, (ll_norm_single _ (no_eol_no_lf _ Hn)), LossyRtP.str_eqb_refl. reflexivity.
 Qed.
 
 Lemma law_14 ll : ext0_ok ll -> law ll 14.
@@ -263,7 +263,7 @@ Proof.
     destruct (IH Hr) as [I1 I2]. cbn [map forallb]. rewrite (Hws w a Hw), I1. split; [reflexivity|]. constructor; [|exact I2].
     destruct (H0 2 w a ltac:(right; left; reflexivity) (ws_item_dom ll w Hw1) Hw) as [_ C2].
     rewrite rr_single in C2 by (apply no_eol_no_lf; apply (ws_item_facts _ (Hws w a Hw))). exact C2. }
-  destruct Hprinted as [P1 P2]. split; [apply canon_join_sp; exact P1|].
+  destruct Hprinted as [P1 P2]. split; [apply canon_pcanon, canon_join_sp; exact P1|].
   rewrite rr_single by (apply no_eol_no_lf, join_sp_no_eol, P1). cbn [xparse]. rewrite (split_ws_join _ P1), (parse_all_of _ _ _ P2). reflexivity.
 Qed.
 
@@ -329,12 +329,16 @@ Qed.
 Lemma law_11 ll : law ll 11.
 Proof.
   intros x e Hg Hx Hp. cbn [xguard] in Hg. unfold vcs_one_group in Hg. apply andb_true_iff in Hg. destruct Hg as [Hlf Hg]. apply negb_true_iff in Hlf.
-  pose proof (dom_canon _ _ Hx) as Hc.
+  pose proof (dom_pcanon _ _ Hx) as Hc.
   assert (Hnx : no_eol x = true).
-  { unfold canon_value in Hc. assert (Hs : split_lf x = [x]).
+  { assert (Hs : split_lf x = [x]).
     { apply split_lf_nolf. unfold contains_char in Hlf. unfold no_lf. clear -Hlf. induction x as [|c r IH]; [reflexivity|]. cbn [existsb forallb] in *.
       apply orb_false_iff in Hlf. destruct Hlf as [H1 H2]. rewrite H1, (IH H2). reflexivity. }
-    rewrite Hs in Hc. cbn [forallb] in Hc. rewrite andb_true_r in Hc. unfold canon_first in Hc. apply andb_true_iff in Hc. apply Hc. }
+    assert (Hcf : canon_first x = true).
+    { destruct ll; cbn [pcanon] in Hc.
+      - unfold canon_value in Hc. rewrite Hs in Hc. cbn [forallb] in Hc. rewrite andb_true_r in Hc. exact Hc.
+      - unfold lcanon_value in Hc. rewrite Hs in Hc. cbn [forallb last_nonempty rev] in Hc. rewrite !andb_true_r in Hc. exact Hc. }
+    unfold canon_first in Hcf. apply andb_true_iff in Hcf. apply Hcf. }
   destruct (trim_facts x) as (Tl & Tt & pre & post & Ex). set (s0 := trim x) in *.
   assert (Hn0 : no_eol s0 = true) by (rewrite Ex in Hnx; apply (no_eol_parts _ _ _ Hnx)).
   cbn [xparse] in Hp. unfold parsed_vcs_from_str in Hp. fold s0 in Hp.
@@ -361,7 +365,7 @@ Proof.
     { unfold y, s1. rewrite <- app_assoc. rewrite no_lead_ws_app by exact Ha. rewrite Es0 in Tl. rewrite no_lead_ws_app in Tl by exact Ha. exact Tl. }
     assert (Hty : no_trail_ws y = true).
     { unfold y. rewrite app_assoc, app_assoc. rewrite no_trail_ws_app by discriminate. reflexivity. }
-    split; [apply canon_single; [exact Hny|apply no_lead_not_indent; exact Hly]|].
+    split; [apply canon_pcanon, canon_single; [exact Hny|apply no_lead_not_indent; exact Hly]|].
     rewrite rr_single by (apply no_eol_no_lf; exact Hny). cbn [xparse]. unfold parsed_vcs_from_str.
     rewrite (trim_id y Hly Hty).
     assert (Hfy : re_find y = Some (s1, run, [])).
@@ -380,7 +384,7 @@ Proof.
               | Some (url, br) => Ok {| repo_url := url; branch := Some (skipn 4 br); subpath := None |}
               | None => Ok {| repo_url := s0; branch := None; subpath := None |} end) as [v| | |] eqn:Ev; try discriminate.
     injection Hp as <-. cbn [xprint]. rewrite (Hprint v eq_refl).
-    split; [apply canon_single; [exact Hn0|apply no_lead_not_indent; exact Tl]|].
+    split; [apply canon_pcanon, canon_single; [exact Hn0|apply no_lead_not_indent; exact Tl]|].
     rewrite rr_single by (apply no_eol_no_lf; exact Hn0). cbn [xparse]. unfold parsed_vcs_from_str.
     rewrite (trim_id s0 Tl Tt), Er, Ev. reflexivity.
 Qed.
@@ -427,7 +431,7 @@ Proof.
   assert (Hitems : forallb ws_item ks = true /\ forallb (fun w => negb (starts_hash w)) ks = true).
   { split; apply forallb_forall; intros k Hk; destruct (repo_word_id _ _ (Hin k Hk)) as (_ & H1 & H2); [exact H1|rewrite H2; reflexivity]. }
   destruct Hitems as [Hi Hh]. change (join [10] (sort_str (dedup_str ws))) with (join [LF] ks). split.
-  - apply canon_join_lf; [exact Hi|]. destruct ks as [|k1 r]; [reflexivity|]. cbn [tl forallb] in *. apply andb_true_iff in Hh. apply Hh.
+  - apply canon_pcanon, canon_join_lf; [exact Hi|]. destruct ks as [|k1 r]; [reflexivity|]. cbn [tl forallb] in *. apply andb_true_iff in Hh. apply Hh.
   - replace (rr ll (join [10] ks)) with (join [10] ks) by (symmetry; apply (rr_join_lf ll ks Hi)). cbn [xparse]. unfold types_parse. fold repo_word. rewrite (split_ws_join_lf _ Hi).
     assert (Hpa : parse_all repo_word ks = Some ks).
     { apply parse_all_of. clear -Hin. induction ks as [|k r IH]; [constructor|]. constructor; [apply Hin; left; reflexivity|apply IH; intros k' Hk'; apply Hin; right; exact Hk']. }
@@ -486,7 +490,7 @@ Qed.
 
 Lemma lines_of_canon x : canon_value x = true -> x <> [] -> lines x = split_lf x.
 Proof.
-  intros Hc Hne. pose proof (canon_value_lines x Hc) as Hj. unfold canon_value in Hc. pose proof (join_split_lf x) as Hs.
+  intros Hc Hne. unfold canon_value in Hc. pose proof (join_split_lf x) as Hs.
   destruct (split_lf x) as [|l1 rest] eqn:Ex; [discriminate|]. apply andb_true_iff in Hc. destruct Hc as [H1 Hr].
   unfold canon_first in H1. apply andb_true_iff in H1. destruct H1 as [Hn1 _].
   rewrite <- Hs. apply lines_join.
@@ -510,11 +514,11 @@ Proof.
   induction l as [|a r IH]; [congruence|]. intros _. destruct r as [|b r']; [left; reflexivity|]. right. apply IH. discriminate.
 Qed.
 
-Lemma law_12 ll : law ll 12.
+Lemma law_12 : law true 12.
 Proof.
-  intros x e Hg Hx Hp. cbn [xguard] in Hg. unfold env_no_hash_line in Hg. cbn [xparse] in Hp.
+  intros x e Hg Hx Hp. cbn [pcanon]. cbn [xguard] in Hg. unfold env_no_hash_line in Hg. cbn [xparse] in Hp.
   destruct (env_parse x) as [ks|] eqn:Ep; [|discriminate]. injection Hp as <-. cbn [xprint]. unfold env_print.
-  pose proof (dom_canon _ _ Hx) as Hc. unfold env_parse in Ep. destruct (env_fold (lines x) []) as [m|] eqn:Ef; [|discriminate]. injection Ep as <-.
+  pose proof (ll_dom_canon _ Hx) as Hc. unfold env_parse in Ep. destruct (env_fold (lines x) []) as [m|] eqn:Ef; [|discriminate]. injection Ep as <-.
   set (L := map env_line m) in *. set (ks := sort_str L) in *.
   destruct (env_fold_inv (lines x) (lines x) [] m (fun l H => H) (NoDup_nil _) (Forall_nil _) Ef) as [Hnd Hok].
   (* every line of the value is a line of the text read *)
@@ -539,8 +543,8 @@ Proof.
         destruct H1 as [Hn Hh]. unfold canon_cont. rewrite Hn. destruct k as [|ch k']; [congruence|]. rewrite Hh. cbn [andb].
         rewrite Eks in Hg. cbn [tl] in Hg. rewrite forallb_forall in Hg. specialize (Hg _ Hk). unfold starts_hash in Hg. exact Hg. }
     split; [exact Hcanon|].
-    assert (Hrr : rr ll (join [10] ks) = join [10] ks).
-    { destruct ll; [|reflexivity]. cbn [rr]. change [10] with [LF]. rewrite Eks. apply ll_norm_join; [exact Hk1|]. rewrite <- Eks.
+    assert (Hrr : rr true (join [10] ks) = join [10] ks).
+    { cbn [rr]. change [10] with [LF]. rewrite Eks. apply ll_norm_join; [exact Hk1|]. rewrite <- Eks.
       apply forallb_forall. intros k Hk. apply no_eol_no_lf. rewrite forallb_forall in Hnl. apply Hnl. exact Hk. }
     rewrite Hrr. cbn [xparse]. unfold env_parse.
     assert (Hl : lines (join [10] ks) = ks).
@@ -557,7 +561,7 @@ Qed.
 
 (* ---- all sixteen *)
 Definition needs_ext0 (ids : list N) : bool := existsb (fun i => existsb (N.eqb i) [1; 2; 3; 14; 15]) ids.
-Theorem x_stable ll ids : (needs_ext0 ids = true -> ext0_ok ll) -> (In 7 ids -> ll = true) -> (forall i, In i ids -> 1 <= i <= 16) ->
+Theorem x_stable ll ids : (needs_ext0 ids = true -> ext0_ok ll) -> (In 7 ids \/ In 12 ids -> ll = true) -> (forall i, In i ids -> 1 <= i <= 16) ->
   ext_stable_on X xpr xpa xguard ll ids.
 Proof.
   intros H0' H7 Hr i x e Hi HG Hx Hp. pose proof (Hr i Hi) as Hb.
@@ -572,12 +576,12 @@ Proof.
   - exact (law_4 ll x e HG Hx Hp).
   - exact (law_5 ll x e HG Hx Hp).
   - exact (law_6 ll x e HG Hx Hp).
-  - rewrite (H7 Hi) in *. exact (law_7 x e HG Hx Hp).
+  - rewrite (H7 (or_introl Hi)) in *. exact (law_7 x e HG Hx Hp).
   - exact (law_8 ll x e HG Hx Hp).
   - exact (law_9 ll x e HG Hx Hp).
   - exact (law_10 ll x e HG Hx Hp).
   - exact (law_11 ll x e HG Hx Hp).
-  - exact (law_12 ll x e HG Hx Hp).
+  - rewrite (H7 (or_intror Hi)) in *. exact (law_12 x e HG Hx Hp).
   - exact (law_13 ll x e HG Hx Hp).
   - exact (law_14 ll (H0 ltac:(cbn; tauto)) x e HG Hx Hp).
   - exact (law_ext ll 15 (H0 ltac:(cbn; tauto)) (or_intror (or_intror (or_intror (or_introl eq_refl)))) x e HG Hx Hp).
@@ -617,12 +621,12 @@ Qed.
 (* the law for one struct of the tables *)
 Lemma xs_struct E0 p0 q0 ll fs : In fs [fs_control_source; fs_control_binary; fs_header; fs_files; fs_license; fs_release;
                         fs_apt_source; fs_apt_package; fs_removal; fs_buildinfo; fs_dep3; fs_repository] ->
-  (needs_ext0 (ext_ids fs) = true -> ext0_ok E0 p0 q0 ll) -> (fs = fs_repository -> ll = true) ->
+  (needs_ext0 (ext_ids fs) = true -> ext0_ok E0 p0 q0 ll) -> (fs = fs_repository \/ fs = fs_buildinfo -> ll = true) ->
   ext_stable_on (xval E0) (xprint E0 p0) (xparse E0 q0) xguard ll (ext_ids fs).
 Proof.
   intros Hfs H0 Hrep. apply x_stable; [exact H0| |].
-  - intros H7. pose proof no_sig_structs as Hn. cbn [In] in Hfs.
-    destruct Hfs as [<-|[<-|[<-|[<-|[<-|[<-|[<-|[<-|[<-|[<-|[<-|[<-|[]]]]]]]]]]]]]; try (apply Hrep; reflexivity);
+  - intros H7. cbn [In] in Hfs.
+    destruct Hfs as [<-|[<-|[<-|[<-|[<-|[<-|[<-|[<-|[<-|[<-|[<-|[<-|[]]]]]]]]]]]]]; try (apply Hrep; tauto);
       (exfalso; revert H7; vm_compute; intuition discriminate).
   - intros i Hi. apply (ids_ok_range fs); [|exact Hi]. pose proof ids_ok_all as Ha. rewrite forallb_forall in Ha. apply Ha. exact Hfs.
 Qed.
